@@ -381,9 +381,10 @@ pub fn finish(ctx: &Ctx, col: &Collector, wall_s: f64) -> Finish {
 }
 
 pub fn subject_info() -> Value {
-    let head = std::process::Command::new("git").args(["-C", "/repo", "rev-parse", "HEAD"]).output().ok()
+    let repo = std::env::var("VERIF_REPO").unwrap_or_else(|_| "/repo".to_string());
+    let head = std::process::Command::new("git").args(["-C", repo.as_str(), "rev-parse", "HEAD"]).output().ok()
         .map(|o| String::from_utf8_lossy(&o.stdout).trim().to_string()).unwrap_or_default();
-    let dirty = std::process::Command::new("git").args(["-C", "/repo", "status", "--porcelain", "--untracked-files=no"]).output().ok()
+    let dirty = std::process::Command::new("git").args(["-C", repo.as_str(), "status", "--porcelain", "--untracked-files=no"]).output().ok()
         .map(|o| !o.stdout.is_empty()).unwrap_or(false);
-    json!({"repo": "/repo", "head": head, "dirty_worktree": dirty, "cfg": "fast_qr_verif", "profile": "release + overflow-checks + debug-assertions (fast_qr)"})
+    json!({"repo": repo, "head": head, "dirty_worktree": dirty, "cfg": "fast_qr_verif", "profile": "release + overflow-checks + debug-assertions (fast_qr)"})
 }
